@@ -20,6 +20,7 @@ import (
 	corev1 "k8s.io/api/core/v1"
 	networkv1 "k8s.io/api/networking/v1"
 	glog "k8s.io/klog"
+	"reflect"
 )
 
 func (p *PolicyManager) AddPod(pod *corev1.Pod) error {
@@ -31,6 +32,11 @@ func (p *PolicyManager) UpdatePod(oldPod, newPod *corev1.Pod) error {
 		if err := p.SyncPodChains(newPod); err != nil {
 			glog.Warning(err)
 		}
+	}
+	if oldPod.Status.PodIP != "" && (oldPod.Status.PodIP != newPod.Status.PodIP ||
+		!reflect.DeepEqual(oldPod.Labels, newPod.Labels)) {
+		// what the pod matched with its old labels (or its old ip) it may no longer match
+		p.SyncPodIPInIPSet(oldPod, false)
 	}
 	if newPod.Status.PodIP != "" {
 		p.SyncPodIPInIPSet(newPod, true)
